@@ -652,6 +652,83 @@ def noise_validation(ctx):
                 return
 
 
+def incremental_lineage_models(ctx, rng, n):
+    """a lineage model whose growth / division / death rules and events were added one at a time, with initialisations and
+    simulations in between, behaves like the same definition built at once."""
+    from bioscrape.random import py_seed_random
+    for i in range(n):
+        spec = gen_lineage(rng, allow_noise=False)
+        parts = ([("vol_rules", j) for j in range(len(spec["vol_rules"]))] + [("div_rules", j) for j in range(len(spec["div_rules"]))] +
+                 [("death_rules", j) for j in range(len(spec["death_rules"]))] + [("vol_events", j) for j in range(len(spec["vol_events"]))] +
+                 [("div_events", j) for j in range(len(spec["div_events"]))] + [("death_events", j) for j in range(len(spec["death_events"]))])
+        if len(parts) < 2:
+            continue
+        # a rule that writes a parameter makes the runs in between part of the model's state: outside this comparison
+        spec["rules"] = [r for r in spec["rules"] if not r[1].get("equation", "").startswith("c =")]
+        T = [j * spec["dt"] for j in range(spec["npts"])]
+        seed = rng.randint(1, 2**31)
+        case = {"spec": spec, "grid": T, "seed": seed, "incremental": True}
+        ctx.begin_case(case)
+        a = driver_batch([lineage_job(spec, build_lineage(spec)[0], T, seed, True)])[0]
+        if a.get("status") != "ok" or not model_finite([a]):
+            ctx.count("discarded:incremental")
+            continue
+        status, ref, _ = run_real(spec, T, seed, True)
+        if status != "ok":
+            continue
+        # incremental construction: same order of creation, an initialisation and a short run after every addition
+        from bioscrape.lineage import LineageModel, LineageVolumeCellState, LineageCSimInterface, LineageSSASimulator
+        M = LineageModel(species=SPECIES, parameters=dict(spec["params"]), reactions=[tuple(r) for r in spec["reactions"]],
+                         rules=[tuple(r) for r in spec["rules"]], initial_condition_dict=dict(spec["x0"]))
+        sps = [lineage_splitter(M, s_["modes"], s_["volume"], s_["noise"]) for s_ in spec["splitters"]]
+
+        def poke():
+            M.py_initialize()
+            if rng.chance(1, 2):
+                I0 = LineageCSimInterface(M)
+                with warnings.catch_warnings():
+                    warnings.simplefilter("ignore")
+                    try:
+                        LineageSSASimulator().py_SimulateSingleCell(np.array(T[:3], dtype=float), Model=M, interface=I0,
+                                                                    v=LineageVolumeCellState(v0=spec["vol0"], t0=T[0], state=np.array(M.get_species_array(), dtype=float)))
+                    except ValueError:
+                        pass
+        for t_, p_ in spec["vol_rules"]:
+            M.create_volume_rule(t_, dict(p_)); poke()
+        for j, (t_, p_) in enumerate(spec["div_rules"]):
+            M.create_division_rule(t_, dict(p_), sps[j]); poke()
+        for t_, p_ in spec["death_rules"]:
+            M.create_death_rule(t_, dict(p_)); poke()
+        for t_, ep, pt, pp in spec["vol_events"]:
+            M.create_volume_event(t_, dict(ep), pt, dict(pp)); poke()
+        for j, (t_, ep, pt, pp) in enumerate(spec["div_events"]):
+            M.create_division_event(t_, dict(ep), pt, dict(pp), sps[len(spec["div_rules"]) + j]); poke()
+        for t_, ep, pt, pp in spec["death_events"]:
+            M.create_death_event(t_, dict(ep), pt, dict(pp)); poke()
+        M.py_initialize()
+        I = LineageCSimInterface(M)
+        I.py_set_initial_time(float(T[0]))
+        py_seed_random(seed)
+        with warnings.catch_warnings():
+            warnings.simplefilter("ignore")
+            try:
+                r = LineageSSASimulator().py_SimulateSingleCell(np.array(T, dtype=float), Model=M, interface=I,
+                                                                v=LineageVolumeCellState(v0=spec["vol0"], t0=float(T[0]), state=np.array(M.get_species_array(), dtype=float)))
+            except ValueError as ex:
+                ctx.violation("lineage/incremental-edits", "a lineage model built by adding its rules and events one at a time raises %r; built at once it simulates" % str(ex)[:120], case)
+                return
+        ctx.evaluated()
+        got = (np.array(r.py_get_timepoints(), float).tolist(), np.array(r.py_get_result(), float).tolist(), np.array(r.py_get_volume(), float).tolist())
+        want = (ref[0]["times"].tolist(), ref[0]["rows"].tolist(), ref[0]["vols"].tolist())
+        if got != want:
+            ctx.violation("lineage/incremental-edits", "a lineage model built by adding its rules and events one at a time (initialising in between) simulates "
+                          "differently from the same definition built at once: volume trace %s vs %s" % (got[2][:6], want[2][:6]),
+                          dict(case, incremental_volume=got[2][:12], at_once_volume=want[2][:12]))
+            return
+        ctx.count("incremental_lineage_models")
+        ctx.nontriv(("incremental", len(parts), tuple(sorted(set(p_[0] for p_ in parts)))))
+
+
 def run(ctx):
     rng = ctx.rng
     q = ctx.quick()
@@ -661,6 +738,7 @@ def run(ctx):
     binomial_statistics(ctx, rng, 1500 if q else 20000)
     lineage_corr(ctx, rng, 30 if q else 500, 2 if q else 4)
     lineage_oracle_only(ctx, rng, 15 if q else 300)
+    incremental_lineage_models(ctx, rng, 25 if q else 400)
 
 
 def replay(ctx, obj):
